@@ -9,15 +9,26 @@ from ..stubs import sched as S
 from .. import loader
 from . import thr, tok
 
-BOUNDS = {"quick": [dict(K=3, obs=1, pre=2, to=1), dict(K=2, obs=2, pre=1, to=1)],
-          "thorough": [dict(K=5, obs=1, pre=2, to=2), dict(K=3, obs=2, pre=2, to=1), dict(K=4, obs=1, pre=3, to=1), dict(K=3, obs=3, pre=1, to=1)]}
+BOUNDS = {"quick": [dict(K=3, obs=1, pre=2, to=1), dict(K=2, obs=2, pre=1, to=1, log=True), dict(K=4, obs=1, pre=1, to=1, log=True)],
+          "thorough": [dict(K=5, obs=1, pre=2, to=2), dict(K=3, obs=2, pre=2, to=1, log=True), dict(K=4, obs=1, pre=3, to=1), dict(K=3, obs=3, pre=1, to=1),
+                       dict(K=6, obs=1, pre=1, to=1, log=True)]}
+
+
+class RecLogger:
+    def __init__(self):
+        self.lines = []
+
+    def info(self, msg, *a):
+        self.lines.append(str(msg))
+
+    warning = error = debug = info
 
 
 def sig(regs):
     return [(round(r.meta.start * thr.SR), round(r.meta.end * thr.SR), bytes(r.data)) for r in regs]
 
 
-def harness(L, K, nobs, max_pre, max_to, kinds=None):
+def harness(L, K, nobs, max_pre, max_to, log=False):
     W, core, util = L.modules["workers"], L.modules["core"], L.modules["util"]
     Obs = thr.make_observer_class(W)
     data = thr.tagged_audio(K)
@@ -25,14 +36,14 @@ def harness(L, K, nobs, max_pre, max_to, kinds=None):
     def path(e):
         s = S.Sched(e, max_timeouts=max_to, max_preempt=max_pre)
         val = thr.window_validator(data)
-        meta = dict(K=K, obs=nobs, pre=max_pre, to=max_to)
+        meta = dict(K=K, obs=nobs, pre=max_pre, to=max_to, log=log)
         e.on_budget = lambda m: mk(m, meta, s)
         outcome = None
         obs = []
         try:
             reader = util.AudioReader(data, block_dur=0.1, sr=thr.SR, sw=thr.SW, ch=thr.CH)
             obs = [Obs() for _ in range(nobs)]
-            tw = W.TokenizerWorker(reader, obs, validator=val, **thr.SPLIT_KW)
+            tw = W.TokenizerWorker(reader, obs, logger=RecLogger() if log else None, validator=val, **thr.SPLIT_KW)
             s.private.add(id(tw._inbox))
             tw.start_all()
             tw.join()
@@ -95,7 +106,7 @@ def replay_fn(c):
     try:
         reader = util.AudioReader(data, block_dur=0.1, sr=thr.SR, sw=thr.SW, ch=thr.CH)
         obs = [Obs() for _ in range(c["obs"])]
-        tw = W.TokenizerWorker(reader, obs, validator=val, **thr.SPLIT_KW)
+        tw = W.TokenizerWorker(reader, obs, logger=RecLogger() if c.get("log") else None, validator=val, **thr.SPLIT_KW)
         s.private.add(id(tw._inbox))
         tw.start_all()
         tw.join()
@@ -139,7 +150,7 @@ def run(rep):
                        "time-outs fire only on an empty queue, at most `to` times per worker", "datetime.now() left real"]
     rep.outside = ["more windows / observers / pre-emptions than stated", "real-time effects"]
     for cf in cfgs:
-        hn = "sched[K=%d,obs=%d,pre=%d,to=%d]" % (cf["K"], cf["obs"], cf["pre"], cf["to"])
-        ex = explore(harness(L, cf["K"], cf["obs"], cf["pre"], cf["to"]), max_decisions=3000, path_wall_s=30)
+        hn = "sched[K=%d,obs=%d,pre=%d,to=%d%s]" % (cf["K"], cf["obs"], cf["pre"], cf["to"], ",logger" if cf.get("log") else "")
+        ex = explore(harness(L, cf["K"], cf["obs"], cf["pre"], cf["to"], cf.get("log", False)), max_decisions=3000, path_wall_s=30)
         rep.add_exploration(hn, ex, bounds=cf)
         tok.handle_cex(rep, hn, ex, replay_fn)
